@@ -220,6 +220,74 @@ def wrap_case(args) -> Dict[str, Any]:
     return {"problems": probs, "distinct_ids": len(set(seen)), "rounds": env.rounds, "wrapped": len(seen) > len(set(seen))}
 
 
+def order_case(args) -> Dict[str, Any]:
+    """long-lived dynamic modules whose order in the manager's table is a given permutation of their id order (each one left and
+    came back to its old id after a full turn of the cursor); then another full turn of connect/disconnect cycles: no newcomer is
+    ever given an id a live module holds"""
+    tc, perm, cycles = args
+    mmx.fresh_gc()
+    env = lock.Env(timecode=tc, fin_grace=0, hids={"M": 1})
+    probs = []
+    seen = []
+    try:
+        for ev in [["conn", "M"], ev_send("M", P.mkframe(P.MT_CONNECT, P.p_connect(), timecode=tc, src_mod_id=90)), ["settle"]]:
+            env.apply(ev)
+        held: Dict[str, int] = {}
+        serial = [0]
+
+        def dyn_connect():
+            serial[0] += 1
+            slot = f"S{serial[0]}"
+            env.apply(["conn", slot])
+            env.apply(ev_send(slot, P.mkframe(P.MT_CONNECT_V2, P.p_connect_v2(0, 0, 0, 0, 1, b""), timecode=tc)))
+            env.settle()
+            acks = [k for k in env.received[slot] if k[0] == "ack"]
+            if len(acks) != 1:
+                probs.append({"prop": "C06", "kind": "dynamic-connect-not-acked", "slot": slot, "n": serial[0]})
+                return slot, None
+            got = acks[0][1]
+            if not (DYN0 <= got < DYNMAX) or got in held.values():
+                probs.append({"prop": "C06", "kind": "bad-dynamic-id", "id": got, "held": sorted(held.values()), "table_order": list(held.values()), "n": serial[0]})
+            return slot, got
+
+        def leave(slot):
+            env.apply(ev_send(slot, P.mkframe(P.MT_DISCONNECT, timecode=tc)))
+            env.settle()
+            env.apply(["fin", slot])
+
+        for _ in perm:
+            slot, got = dyn_connect()
+            held[slot] = got
+        ids = sorted(held.values())
+        for i in perm:
+            target = ids[i]
+            old = [s for s, v in held.items() if v == target][0]
+            leave(old)
+            del held[old]
+            for _ in range(cycles):
+                slot, got = dyn_connect()
+                if got == target:
+                    held[slot] = got
+                    break
+                leave(slot)
+                if env.dead or probs:
+                    break
+            else:
+                probs.append({"prop": "C06", "kind": "id-never-offered-again", "id": target})
+            if env.dead or probs:
+                break
+        for _ in range(cycles if not probs else 0):
+            slot, got = dyn_connect()
+            seen.append(got)
+            leave(slot)
+            if env.dead or probs:
+                break
+        probs += [dict(p) for p in env.problems if p["prop"] in ("C06", "C03", "C19")]
+    finally:
+        env.close()
+    return {"problems": probs, "distinct_ids": len(set(seen)), "rounds": env.rounds, "wrapped": len(seen) > len(set(seen))}
+
+
 # ---- part C: public entry points -------------------------------------------------------------------
 
 def entry_case(args) -> Dict[str, Any]:
@@ -252,6 +320,14 @@ def entry_case(args) -> Dict[str, Any]:
         elif entry == "connect-positional":
             c = w.new_client(mid, 0, tc, name)
             c.connect(mmx.SERVER, lg, dm, am)
+        elif entry == "connect-again":
+            # the same object is already connected to this manager with the default options, then connect() is called with others
+            c = w.new_client(module_id=mid, timecode=tc, name=name)
+            c.connect(mmx.SERVER)
+            w.settle()
+            m.drain()
+            n0 = len(m.inbox)
+            c.connect(mmx.SERVER, logger_status=lg, daemon_status=dm, allow_multiple=am)
         else:
             if dm:
                 return {"problems": [], "skipped": True}
@@ -260,6 +336,17 @@ def entry_case(args) -> Dict[str, Any]:
             clx.quiet(c)
             w.real_clients.append(c)
         w.settle()
+        if entry == "connect-again":
+            # judged at the manager only (whether the library re-announces itself or keeps the connection is its own business)
+            mods = [mm for mm in w.mgr.modules.values() if mm.connected and mm is not w.mgr.mm_module and mm.mod_id == c.module_id]
+            if len(mods) != 1:
+                probs.append({"prop": "C06", "kind": "not-connected-after-second-connect", "entry": entry, "modules": len(mods)})
+            else:
+                got = (mods[0].name, int(mods[0].is_logger), int(mods[0].unique), int(mods[0].is_daemon))
+                want = (name_expected, int(lg), int(not am), int(dm))
+                if got != want:
+                    probs.append({"prop": "C06", "kind": "options-at-manager", "entry": entry, "want": list(want), "got": list(got)})
+            return {"problems": probs, "skipped": False}
         frames = w.sent_frames(c)
         v2 = [f for f in frames if f.msg_type == P.MT_CONNECT_V2]
         v1 = [f for f in frames if f.msg_type == P.MT_CONNECT]
@@ -445,6 +532,9 @@ def run_chunk(items):
         if kind == "wrap":
             out.append(wrap_case(args))
             continue
+        if kind == "order":
+            out.append(order_case(args))
+            continue
         if kind == "reconnect":
             out.append(reconnect_case(args))
             continue
@@ -490,6 +580,10 @@ def run(tier: str) -> int:
         # longer runs of ids in use when the cursor comes round again
         for keep in ((0, 1, 2, 3, 4), (0, 2, 3, 4, 5, 6, 7), tuple(range(12))):
             items.append(("wrap", (tc, keep, 105 if tier == "quick" else 230)))
+        # the holders sit in the manager's table in every order relative to their ids
+        for m in ((2, 3) if tier == "quick" else (2, 3, 4)):
+            for perm in itertools.permutations(range(m)):
+                items.append(("order", (tc, perm, 105)))
     for tc in ((False,) if tier == "quick" else (False, True)):
         for ncl in (1, 3):
             for how in ("rst", "fin"):
@@ -500,7 +594,7 @@ def run(tier: str) -> int:
                 for how in ("refused-or-stays", "leaves"):
                     items.append(("incumbent", (tc, ikind, req, how)))
     n_entry = 0
-    for entry in ("connect", "connect-positional", "client_context"):
+    for entry in ("connect", "connect-positional", "client_context", "connect-again"):
         for mid in (0, 33, 5):  # 5 is listed in the core module-id table (QUICK_LOGGER): an empty name is filled in from it, a given name is kept
             for name in ("", "n"):
                 for lg, dm, am in itertools.product((False, True), repeat=3):
@@ -517,7 +611,7 @@ def run(tier: str) -> int:
         if kind == "incumbent":
             totals["incumbent_cases"] = totals.get("incumbent_cases", 0) + 1
             totals["transitions"] = totals.get("transitions", 0) + r.get("rounds", 0)
-        elif kind == "wrap":
+        elif kind in ("wrap", "order"):
             wraps += 1
             totals["transitions"] = totals.get("transitions", 0) + r["rounds"]
             if not r["wrapped"]:
@@ -544,9 +638,9 @@ def replay(case) -> int:
         r = incumbent_case((args[0], args[1], tuple(args[2]), args[3]))
     elif kind == "reconnect":
         r = reconnect_case(tuple(args))
-    elif kind == "wrap":
+    elif kind in ("wrap", "order"):
         args = (args[0], tuple(args[1]), args[2])
-        r = wrap_case(args)
+        r = wrap_case(args) if kind == "wrap" else order_case(args)
     else:
         r = entry_case(tuple(args))
     print(f"  {kind} {args}")
